@@ -1,5 +1,6 @@
 #!/usr/bin/env python3
-"""Re-run every seeded change against its property's check (isolated worktree, tools/seedtest.sh) and record
+"""(SEEDSLOT=<n> in the environment is passed through to tools/seedtest.sh.)
+Re-run every seeded change against its property's check (isolated worktree, tools/seedtest.sh) and record
 the outcome in seeded/<name>/meta.json under "final_check_result". Usage: tools/seed_rerun.py [name ...]"""
 import glob, json, os, re, subprocess, sys
 root = os.path.dirname(os.path.dirname(os.path.abspath(__file__)))
